@@ -252,6 +252,27 @@ fn run_op(tx: &mut Transaction, op: &Value) -> Value {
                 Err(e) => json!({ "err": e }),
             }
         }
+        "script_roundtrip" => match Script::from_bytes(&hx(&op["hex"])) {
+            Ok(mut sc) => {
+                if op["remove_codeseparators"].as_bool().unwrap_or(false) {
+                    sc.remove_codeseparators();
+                }
+                json!({ "ok": hex::encode(sc.to_bytes()) })
+            }
+            Err(e) => json!({ "err": e.to_string() }),
+        },
+        "wif_roundtrip" => {
+            // encode a key as WIF with the library, decode it again, report what came back
+            let key = PrivateKey::from_bytes(&hx(&op["key"])).expect("key").compress_public_key(op["compressed"].as_bool().unwrap());
+            let wif = key.to_wif().expect("wif");
+            match PrivateKey::from_wif(&wif) {
+                Ok(k) => {
+                    let pk = k.to_public_key().expect("pubkey");
+                    json!({"ok": {"key": hex::encode(k.to_bytes()), "compressed": pk.is_compressed()}})
+                }
+                Err(e) => json!({ "err": e.to_string() }),
+            }
+        }
         "der_roundtrip" => match Signature::from_der(&hx(&op["bytes"])) {
             Ok(sig) => json!({ "ok": hex::encode(sig.to_der_bytes()) }),
             Err(e) => json!({ "err": e.to_string() }),
